@@ -136,11 +136,17 @@ func (s *scopedWalker) walkFn(path string, d fs.DirEntry, err error) error {
 	name := path
 	if s.strip != "" {
 		name = strings.TrimPrefix(name, s.strip)
+		if path+string(os.PathSeparator) == s.strip {
+			// The requested directory itself (trailing slash: transfer its
+			// contents) is the top directory of the transfer, not an entry
+			// named like the directory.
+			name = "."
+		}
 	}
 	if opts.DebugGTE(rsyncopts.DEBUG_FLIST, 1) {
 		logger.Printf("Trim(path=%q) = %q", path, name)
 	}
-	if path == "." {
+	if path == "." || name == "." {
 		flags |= rsync.XMIT_TOP_DIR
 	}
 	// st.logger.Printf("flags for %q: %v", name, flags)
